@@ -56,6 +56,7 @@ type c13Cfg struct {
 	Cap      int      `json:"cap"`
 	Roots    []int    `json:"roots"`
 	Stop     int      `json:"stop"`
+	Cached   bool     `json:"cached"`
 }
 
 type c13Ev struct {
@@ -74,6 +75,11 @@ type c13Beh struct {
 	Seen   []int   `json:"seen"`
 	Total  int     `json:"total"`
 	Dedup  int     `json:"dedup"`
+	// the as-built alternative of a named open deviation, when it differs from the ideal behaviour
+	Alt *struct {
+		Dev    string  `json:"dev"`
+		Events []c13Ev `json:"events"`
+	} `json:"alt"`
 }
 
 func (c *c13Cfg) canon(i int) int {
@@ -123,6 +129,7 @@ type c13World struct {
 	real bool           // blocks are real and stored in bs
 	bs   blockstore.Blockstore
 	sink func(M)
+	memo map[int][]cid.Cid // cfg.cached: the fetcher's memoised link slices
 }
 
 func (w *c13World) node(c cid.Cid) int {
@@ -174,6 +181,9 @@ func c13HasAlias(cfg c13Cfg, i int) bool {
 
 // c13Realizable: can the configuration be built from real blocks in a blockstore?
 func c13Realizable(cfg c13Cfg) bool {
+	if cfg.Cached { // the blockstore-backed fetchers decode a fresh slice on every call
+		return false
+	}
 	for i := 1; i <= cfg.N; i++ {
 		kind, ls := cfg.Kind[i-1], cfg.Links[i-1]
 		if (kind == "raw" || kind == "symlink") && len(ls) > 0 {
@@ -373,6 +383,21 @@ func (w *c13World) locality() func(context.Context, cid.Cid) (bool, error) {
 }
 
 func (w *c13World) childCids(i int) []cid.Cid {
+	if w.cfg.Cached && !w.real { // a memoising fetcher hands out the same slice every time
+		if w.memo == nil {
+			w.memo = map[int][]cid.Cid{}
+		}
+		if s, ok := w.memo[i]; ok {
+			return s
+		}
+		s := w.freshChildCids(i)
+		w.memo[i] = s
+		return s
+	}
+	return w.freshChildCids(i)
+}
+
+func (w *c13World) freshChildCids(i int) []cid.Cid {
 	out := make([]cid.Cid, 0, len(w.cfg.Links[i-1]))
 	for _, ch := range w.cfg.Links[i-1] {
 		out = append(out, w.cids[ch])
@@ -503,6 +528,12 @@ func c13MStr(m M) string {
 }
 
 func c13Check(b *c13Beh, w *c13World, label string) string {
+	d, _ := c13Check2(b, w, label)
+	return d
+}
+
+// c13Check2 also returns the observed callback sequence.
+func c13Check2(b *c13Beh, w *c13World, label string) (string, []string) {
 	var got []string
 	var emitted [][]int
 	cur := []int{}
@@ -529,7 +560,7 @@ func c13Check(b *c13Beh, w *c13World, label string) string {
 			g = emitted[k]
 		}
 		if fmt.Sprint(g) != fmt.Sprint(b.Want[k]) {
-			return fmt.Sprintf("%s: walk %d emitted %v, the reference pre-order DFS gives %v", label, k+1, g, b.Want[k])
+			return fmt.Sprintf("%s: walk %d emitted %v, the reference pre-order DFS gives %v", label, k+1, g, b.Want[k]), got
 		}
 	}
 	for k := 0; k < len(got) || k < len(want); k++ {
@@ -541,7 +572,7 @@ func c13Check(b *c13Beh, w *c13World, label string) string {
 			x = want[k]
 		}
 		if g != x {
-			return fmt.Sprintf("%s: callback #%d is %s, the spec expects %s", label, k+1, g, x)
+			return fmt.Sprintf("%s: callback #%d is %s, the spec expects %s", label, k+1, g, x), got
 		}
 	}
 	if trk != nil {
@@ -555,21 +586,21 @@ func c13Check(b *c13Beh, w *c13World, label string) string {
 				key = b.Cfg.canon(i)
 			}
 			if trk.Has(w.cids[i]) != seen[key] {
-				return fmt.Sprintf("%s: tracker.Has(node %d) = %v after the walks, the spec expects %v", label, i, !seen[key], seen[key])
+				return fmt.Sprintf("%s: tracker.Has(node %d) = %v after the walks, the spec expects %v", label, i, !seen[key], seen[key]), got
 			}
 		}
 		switch t := trk.(type) {
 		case *MapTracker:
 			if int(t.Deduplicated()) != b.Dedup {
-				return fmt.Sprintf("%s: MapTracker.Deduplicated() = %d, spec %d", label, t.Deduplicated(), b.Dedup)
+				return fmt.Sprintf("%s: MapTracker.Deduplicated() = %d, spec %d", label, t.Deduplicated(), b.Dedup), got
 			}
 		case *BloomTracker:
 			if int(t.Count()) != b.Total || int(t.Deduplicated()) != b.Dedup {
-				return fmt.Sprintf("%s: BloomTracker Count/Deduplicated = %d/%d, spec %d/%d", label, t.Count(), t.Deduplicated(), b.Total, b.Dedup)
+				return fmt.Sprintf("%s: BloomTracker Count/Deduplicated = %d/%d, spec %d/%d", label, t.Count(), t.Deduplicated(), b.Total, b.Dedup), got
 			}
 		}
 	}
-	return ""
+	return "", got
 }
 
 func c13Replay(t *testing.T) {
@@ -581,8 +612,17 @@ func c13Replay(t *testing.T) {
 			t.Fatalf("behaviour %d: %v", i, err)
 		}
 		res := M{"i": i, "ok": true}
-		if d := c13Check(&b, c13Scripted(b.Cfg, i), "scripted fetcher"); d != "" {
+		if d, got := c13Check2(&b, c13Scripted(b.Cfg, i), "scripted fetcher"); d != "" {
 			res = M{"i": i, "ok": false, "step": 1, "what": d}
+			if b.Alt != nil { // exactly the as-built behaviour of the named deviation?
+				var alt []string
+				for _, e := range b.Alt.Events {
+					alt = append(alt, c13EvStr(e.Ev, e.C, e.Ret, e.Ok, e.Cont))
+				}
+				if fmt.Sprint(alt) == fmt.Sprint(got) {
+					res["dev"] = b.Alt.Dev
+				}
+			}
 		} else if c13Realizable(b.Cfg) {
 			nreal++
 			if d := c13Check(&b, c13Real(b.Cfg, i), "real blocks"); d != "" {
@@ -665,7 +705,14 @@ func c13RandCfg(r *rand.Rand, maxN int) c13Cfg {
 		c.Kind[j-1], c.Ident[j-1], c.Loc[j-1], c.Fok[j-1] = c.Kind[i-1], false, c.Loc[i-1], c.Fok[i-1]
 		c.Links[j-1] = append([]int{}, c.Links[i-1]...)
 	}
+	c.Cached = r.Intn(5) == 0
+	if c.Cached && r.Intn(2) == 0 { // a memoising fetcher shows when nodes are fetched again: no tracker
+		c.Trk = "none"
+	}
 	nr := 1 + r.Intn(3)
+	if c.Trk == "none" {
+		nr = 1 + r.Intn(2)
+	}
 	for k := 0; k < nr; k++ {
 		root := 1
 		if k < nr-1 || r.Intn(3) == 0 {
@@ -684,7 +731,7 @@ func c13RandCfg(r *rand.Rand, maxN int) c13Cfg {
 func (c c13Cfg) fields() M {
 	return M{"ev": "Reset", "n": c.N, "links": c.Links, "kind": c.Kind, "ident": c.Ident, "aliasOf": c.AliasOf,
 		"loc": c.Loc, "fok": c.Fok, "mode": c.Mode, "locality": c.Locality, "trk": c.Trk, "cap": c.Cap,
-		"roots": c.Roots, "stop": c.Stop}
+		"roots": c.Roots, "stop": c.Stop, "cached": c.Cached}
 }
 
 func c13KeyCid(k int, v0 bool) cid.Cid {
@@ -710,6 +757,7 @@ func c13Counters(t VisitedTracker) M {
 func c13DriveTracker(r *rand.Rand, kind string, inserts, every int) {
 	cfg := c13Cfg{N: 1, Links: [][]int{{}}, Kind: []string{"raw"}, Ident: []bool{false}, AliasOf: []int{0},
 		Loc: []bool{true}, Fok: []bool{true}, Mode: "dag", Trk: kind, Roots: []int{}}
+	_ = cfg.Cached
 	if kind == "bloom" {
 		cfg.Cap = MinBloomCapacity
 	}
